@@ -631,7 +631,7 @@ func KVDiff(pre, post map[string][]byte) []KVChange {
 }
 
 // CustomStores are the six stores owned by the custom modules.
-var CustomStores = []string{"storage", "rns", "filetree", "oracle", "notifications", "jklmint"}
+var CustomStores = []string{"storage", "rns", "filetree", "oracle", "notification", "jklmint"}
 
 // ---------------------------------------------------------------- governance
 
